@@ -121,11 +121,12 @@ func (k *KerberosProxy) forward(realm string, data []byte) (resp []byte, err err
 
 	// merge the kdcs
 	kdcs := make([]Kdc, tcpCnt+udpCnt)
+	// GetKDCs numbers the servers 1..count
 	for i := range udpKdcs {
-		kdcs[i] = Kdc{Realm: realm, Host: udpKdcs[i], Proto: "udp"}
+		kdcs[i-1] = Kdc{Realm: realm, Host: udpKdcs[i], Proto: "udp"}
 	}
 	for i := range tcpKdcs {
-		kdcs[i+udpCnt] = Kdc{Realm: realm, Host: tcpKdcs[i], Proto: "tcp"}
+		kdcs[i-1+udpCnt] = Kdc{Realm: realm, Host: tcpKdcs[i], Proto: "tcp"}
 	}
 
 	replies := make(chan []byte, len(kdcs))
